@@ -7,7 +7,7 @@ Equation lemmas and single-operation specifications for the model functions of
 about one call from an arbitrary state. Association lists may contain duplicate keys; `lookup`
 finds the first entry, `erase` removes every entry of the key.
 -/
-namespace Sx
+namespace Sx.Loc
 
 /-! ### association lists -/
 section assoc
@@ -193,9 +193,9 @@ theorem popFail_cons {s : State} {b : Bool} {fs : List Bool} (h : s.fails = b ::
   simp [popFail, h]
 
 /-- the state after a persistence call consumed its oracle entry -/
-def State.pop (s : State) : State := { s with fails := s.fails.tail }
+def _root_.Sx.State.pop (s : State) : State := { s with fails := s.fails.tail }
 /-- a save consumes an entry of both oracles -/
-def State.pop2 (s : State) : State := { s with fails := s.fails.tail, picks := s.picks.tail }
+def _root_.Sx.State.pop2 (s : State) : State := { s with fails := s.fails.tail, picks := s.picks.tail }
 
 /-- fields that no cache-level step changes -/
 structure Fr (s s' : State) : Prop where
@@ -1325,4 +1325,4 @@ theorem hlogin_eq (cfg : Cfg) (le : ID → ID → Bool) (s : State) (h : Nat) (u
       unfold loginSet; rw [hPe]; exact hC
     cases ok3 <;> simp [hC']
 
-end Sx
+end Sx.Loc
